@@ -743,6 +743,7 @@ func c09R4(r *Report) {
 		func(t types.Type) bool { return typeIs(derefType(t), modPath+"/peer", "Peer") }, 2)
 	stateRefsSent(r, "R4", func(f *ssa.Function) bool { return relPkg(f) == "tor" },
 		func(t types.Type) bool { return typeIs(derefType(t), modPath+"/tor", "Torrent") }, 1)
+	sentSlicesNotReused(r, "R4", map[string]bool{"tor": true, "peer": true}, 1)
 	bm := p.Field("peer", "Peer", "bitmap")
 	if !r.Anchor("R4", "peer.Peer.bitmap", bm != nil) {
 		return
